@@ -20,6 +20,7 @@ RULE = ("One evaluation = one seeded execution of two real clients + real "
         "non-trivial runs.")
 RULE += (" Three of eight configurations add a planned uplink loss (server stops reading one client's connection, then the connection dies).")
 RULE += (' Two further configurations apply the planned uplink loss twice in a row to the same client (what was re-submitted on the replacement connection is lost again).')
+RULE += (' Interactive code entry: the nameplate list asked for by input_code() / refresh_nameplates() must have been answered by the time the session completes.')
 LEVEL_TEXT = ("Seeded exploration of drop points in a composed two-client run; "
               "after the last fault connectivity is restored and the run must "
               "reach: both sides have code/key/verifier/versions, every sent "
@@ -79,6 +80,20 @@ def run_one(seed, tape, opts):
                 first()
                 second()
 
+    # the nameplate list an interactive code entry asked for: requests (made
+    # by input_code() and refresh_nameplates()) and answers, by event number
+    list_req, list_ans = {}, {}
+
+    def on_op(c, op, ok):
+        if ok and op[0] in ("input", "refresh_nameplates"):
+            list_req[c.name] = sim.steps
+
+    def on_server_msg(c, msg):
+        if msg.get("type") == "nameplates":
+            list_ans[c.name] = sim.steps
+    w.on_op = on_op
+    w.on_server_msg = on_server_msg
+
     def oracle():
         if planned is not None:
             planned()
@@ -122,6 +137,22 @@ def run_one(seed, tape, opts):
                                    "reconnects",
                          "detail": "%s closed with %r" % (x.name,
                                                           x.closed_results)}
+                    break
+                if x.name in list_req and \
+                        list_ans.get(x.name, -1) < list_req[x.name]:
+                    # (every connection starts with the re-issued request, and
+                    # the server answers in order: a session that went on to
+                    # complete has seen the answer)
+                    v = {"key": "C09.event_lost.nameplates",
+                         "clause": "an unanswered request is re-issued on the "
+                                   "next connection: no application-visible "
+                                   "event is lost because of a reconnect",
+                         "detail": "%s asked for the nameplate list at event "
+                                   "%d (interactive code entry); the session "
+                                   "completed, yet no `nameplates` answer "
+                                   "reached it after that (last one: %s)" %
+                                   (x.name, list_req[x.name],
+                                    list_ans.get(x.name))}
                     break
                 if x.api_errors:
                     v = {"key": "C09.api_error", "clause": "no exception from "
